@@ -76,6 +76,14 @@ impl Italian {
     }
 }
 
+/// Is the group being built (the part below the next multiplier) exactly "one"?
+fn group_is_one(b: &DigitString, positions: usize) -> bool {
+    let peek = b.peek(positions);
+    !peek.is_empty()
+        && peek[peek.len() - 1] == b'1'
+        && peek[..peek.len() - 1].iter().all(|&c| c == b'0')
+}
+
 impl LangInterpreter for Italian {
     fn apply(&self, num_func: &str, b: &mut DigitString) -> Result<(), Error> {
         let lemma = lemmatize(num_func);
@@ -177,7 +185,7 @@ impl LangInterpreter for Italian {
                 }
             }
             "milione" if b.is_range_free(6, 8) => {
-                if b.len() != 1 || b.peek(1) != b"1" {
+                if !group_is_one(b, 6) {
                     Err(Error::NaN)
                 } else {
                     b.shift(6)
@@ -198,7 +206,7 @@ impl LangInterpreter for Italian {
                 }
             }
             "miliardo" => {
-                if b.len() != 1 || b.peek(1) != b"1" {
+                if !group_is_one(b, 9) {
                     Err(Error::NaN)
                 } else {
                     b.shift(9)
@@ -219,7 +227,7 @@ impl LangInterpreter for Italian {
                 }
             }
             "bilione" => {
-                if b.len() != 1 || b.peek(1) != b"1" {
+                if !group_is_one(b, 12) {
                     Err(Error::NaN)
                 } else {
                     b.shift(12)
